@@ -2,7 +2,9 @@ import FiberModel.Generated.C18Facts
 import FiberModel.C18.Pool
 /-
 C18 (a') — regenerated facts about the pooled types (translator/c18 reads /repo/client/request.go and
-response.go on every run): which fields the structs have and which of them `Reset` touches. The
+response.go on every run): which fields the structs have and which of them `Reset` touches (any occurrence of `r.x` in `Reset` or in a
+method of the type that `Reset` calls on the receiver; `*r = …` counts as all — generous on purpose, so that a
+refactoring of `Reset` does not break the fact). The
 theorems tie the transcription `resetReq` / `resetResp` of Pool.lean to the code: the model object has
 exactly the fields of the Go struct, and the Go `Reset` leaves no field out.
 -/
